@@ -109,7 +109,7 @@ def run(ctx):
     ev = 0
     hist = {}
     for k in range(nstruct):
-        st = gs.gen_structure(rng)
+        st = gs.gen_structure(rng, name=rng.choice(['P-1', 'P-1', 'P1']) if k % 6 == 5 else None)
         hist[st['name']] = hist.get(st['name'], 0) + 1
         try:
             ob = sc.observe(st)
@@ -117,6 +117,9 @@ def run(ctx):
             common.add_violation(ctx, 'calc_sdm / packer raised on a valid structure', {'name': st['name'], 'text': gs.to_text(st)}, 'no exception', repr(ex))
             continue
         ev += oracle(ctx, st, ob)
+        mc = sc.metric_constants_ok(ob)
+        if mc and not any('metric constants' in x for x in ctx.broken):
+            ctx.broken.append('correspondence: metric constants of the SDM object differ from the cell: ' + mc)
         defs.append(sc.coq_defs(ob, k))
         t = sc.coq_checks(ob, k)
         terms += t[:2]
